@@ -100,6 +100,17 @@ class Probe:
             self.k(repo)["tags"].append(tag)
         return d, body
 
+    def push_index_artifact(self, repo, subject):
+        """an index (manifest list) that carries a subject"""
+        sd = {"mediaType": MT_OCI_M, "digest": subject[0], "size": len(subject[1])}
+        self.n += 1
+        body = index_manifest([], subject=sd, artifact_type="application/vnd.example.sbom", annotations={"n": str(self.n)})
+        d = dg("sha256", body)
+        self.add(manifest_put(repo, d, body, ctype=MT_OCI_I))
+        self.contents.add(body)
+        self.k(repo)["mans"].append((d, body, MT_OCI_I))
+        return d, body
+
     def populate(self, repo):
         img = self.push_image(repo, tag="v1")
         self.push_image(repo, tag=None)
@@ -126,13 +137,24 @@ class Probe:
     def gated_round(self, base):
         """one request of every governed kind, in random order"""
         rng = self.rng
-        ops = ["mput", "mono", "chunked", "mdel-tag", "mdel-digest", "blobdel", "refs", "sessdel", "badmethod"]
+        ops = ["mput", "mono", "chunked", "mdel-tag", "mdel-digest", "blobdel", "refs", "sessdel", "badmethod", "artifact"]
         rng.shuffle(ops)
         for op in ops:
             if op == "mput":
                 r = self.target("mput", base)
                 # the blobs it references are pushed to the same repository first (push-governed as well)
                 self.push_image(r, tag=rng.choice(["new", "v1", None]))
+            elif op == "artifact":
+                # pushes with a subject are governed by the push switch and by the referrers switch (OCI-Subject, the response kept
+                # for the subject): they go to the repository reserved for either
+                r = "gx" if self.x in ("push", "referrer", "ro") else base
+                kn = self.k(r)
+                subj = (kn["mans"][0][0], kn["mans"][0][1]) if kn["mans"] else (dg("sha256", b"no-such-subject"), b"x" * 10)
+                if rng.random() < 0.5:
+                    self.push_index_artifact(r, subj)
+                else:
+                    self.push_image(r, tag=None, subject=subj)
+                self.add(referrers(r, subj[0]))
             elif op == "mono":
                 self.push_blob(self.target("upost", base))
             elif op == "chunked":
@@ -265,6 +287,9 @@ def gate_oracle(ctx, case, io):
                               oracles.hist(case, k, res), "C19:refused-while-enabled-%s" % kind)
         if rc["ro"] and kind in MUTATING and 200 <= status < 300 and kind != "udel":
             ctx.violation("%s %s accepted (%s) by read-only storage" % (st["impl"]["method"], st["impl"]["path"], status), oracles.hist(case, k, res), "C19:ro-accepted")
+        if not rc["referrer"] and (res.get("headers") or {}).get("Oci-Subject"):
+            ctx.violation("%s %s is answered with OCI-Subject although the referrers API is disabled (the header tells the client that the registry keeps the referrers)"
+                          % (st["impl"]["method"], st["impl"]["path"]), oracles.hist(case, k, res), "C19:oci-subject-while-referrer-off")
         w = (res.get("headers") or {}).get("Warning") or []
         want = ['299 - "%s"' % m for m in (conf.get("warnings") or [])]
         if w != want:
@@ -407,7 +432,8 @@ def defaults_check(ctx, binp):
 # ---- 3. rate limit ------------------------------------------------------------------------------------------
 ADDRS = [("", "10.0.0.1:4000"), ("", "10.0.0.1:4001"), ("", "10.0.0.2:4000"), ("", "[2001:db8::1]:555"), ("", "[2001:db8::1]:556"),
          ("", "10.0.0.3"), ("198.51.100.7", "10.0.0.9:1"), ("198.51.100.7, 10.0.0.1", "10.0.0.8:1"), ("198.51.100.8,10.0.0.1", "10.0.0.8:1"),
-         ("10.0.0.1", "10.0.0.2:77"), ("", ":8080"), ("", "localhost:1")]
+         ("10.0.0.1", "10.0.0.2:77"), ("", ":8080"), ("", "localhost:1"),
+         ("", "[2001:db8::2]:555"), ("", "[2001:db9::1]:555"), ("", "[::1]:80"), ("", "[fe80::1%eth0]:9"), ("", "[::ffff:10.0.0.1]:4000")]
 
 
 def rate_cases(ctx, first):
@@ -417,6 +443,8 @@ def rate_cases(ctx, first):
     for i in range(n):
         L = rng.choice([1, 2, 3, 5, 8])
         addrs = rng.sample(ADDRS, rng.randrange(2, 6))
+        if i % 4 == 0:
+            addrs = rng.sample([a for a in ADDRS if a[1].startswith("[")], 3)         # clients that differ only inside an IPv6 address
         steps = []
         for _ in range(rng.randrange(2, 5)):
             # a burst, then a pause that either stays well inside the window or leaves it for sure
